@@ -1,5 +1,331 @@
-(* C01 — placeholder until the composition proof lands (the prove-C01 builder owns this file). *)
-From MT Require Import Types.
-Theorem c01_placeholder_partial : member true (fun _ _ => true) (VAtom 1%N 0%N) TAny = true.
-Proof. reflexivity. Qed.
-Print Assumptions c01_placeholder_partial.
+(* C01 — end-to-end soundness: the annotation emitted for a traced position admits every value observed there.
+   Pipeline (a position = the list of values observed at one argument / return / yield slot):
+       per call   get_type k v                       Model/Infer.v       (soundness: Proofs/GetTypeSound.v)
+       store      encode, JSON text, decode          Model/Encode.v      (round trip up to corrb: Props/C08.v)
+       merge      shrink_types over ALL decoded types Model/Infer.v      (Proofs/InferSound.v)
+       rewrite    the configured rewriter chain       Model/Rewrite.v    (never narrows: Props/C07.v)
+       render     annotation text, evaluated in the stub's namespace  Model/Render.v  (Props/C11.v, partial)
+   Readings: an inferred type is read TIGHTLY up to and including the merge (Any only stands for "no element was
+   seen": List[Any] admits only the empty list); the emitted annotation is read as an annotation (Any admits all).
+   Proved for ALL inputs: everything up to and including the rewriter chain; the rendering step for annotations
+   without TypedDict at token level, and for any annotation relative to C11's per-annotation denotation property.
+   Stated, not proved: C01_full (text level with generated TypedDict classes) — see the comment there. *)
+From MT Require Import Types Infer Rewrite Hier TypesFacts GetTypeSound RewriteMono Encode EncodeRoundtrip
+                       EncodeExamples Render RenderTok PipelineCorr Pipeline PipelineRender.
+
+(* ---- the correspondence relation of the store round trip (union members as multisets, TypedDict fields as
+        finite maps) preserves membership, under either reading of Any, for every subclass test ---- *)
+Theorem member_corrb :
+  forall (anyb : bool) (sub : cls -> cls -> bool) (a b : ty) (v : value),
+    wf_ty a -> wf_ty b -> corrb a b = true -> member anyb sub v a = true -> member anyb sub v b = true.
+Proof. exact PipelineCorr.member_corrb. Qed.
+Print Assumptions member_corrb.
+
+(* wf_ty b is implied (so the premise on b above is redundant); wf_ty a is needed (ex_member_corrb_needs_wf) *)
+Theorem corrb_preserves_wf : forall a b, wf_ty a -> corrb a b = true -> wf_ty b.
+Proof. exact corrb_wf. Qed.
+Print Assumptions corrb_preserves_wf.
+
+Theorem member_corrb_left_wf :
+  forall (anyb : bool) (sub : cls -> cls -> bool) (a b : ty) (v : value),
+    wf_ty a -> corrb a b = true -> member anyb sub v a = true -> member anyb sub v b = true.
+Proof. exact member_corrb_wf. Qed.
+Print Assumptions member_corrb_left_wf.
+
+Example ex_member_corrb_needs_wf :
+  let a := TTypedDict [("a"%string, TCls cInt); ("a"%string, TCls cInt)] [] in
+  let b := TTypedDict [("a"%string, TCls cInt); ("b"%string, TCls cStr)] [] in
+  let v := VDict [(VStr "a", VAtom cInt 1)] in
+  corrb a b = true /\ member false N.eqb v a = true /\ member false N.eqb v b = false /\ ~ wf_ty a.
+Proof. exact PipelineCorr.ex_member_corrb_needs_wf. Qed.
+
+(* ---- the pipeline up to the emitted annotation TYPE ----
+   obs: the values observed at the position; stored: the types the merge sees.  Every observed value's inferred
+   type reached the merge, possibly as a corrb-equal decoded copy; stored may hold more types, in any order and
+   multiplicity.  chain_ok: RemoveEmptyContainers never runs after a RewriteLargeUnion. *)
+Theorem pipeline_sound :
+  forall h bt k rs (obs : list value) (stored : list ty) T v,
+    wf_hier h = true -> bt_ok h bt = true -> chain_ok rs = true ->
+    forallb wf_valueb obs = true ->
+    (forall x, In x obs -> exists t t', get_type k x = Some t /\ In t' stored /\ corrb t t' = true) ->
+    Forall wf_ty stored ->
+    shrink_top k stored = Some T -> In v obs ->
+    member true (subclass h) v (rw_chain h bt rs T) = true.
+Proof. exact Pipeline.pipeline_sound. Qed.
+Print Assumptions pipeline_sound.
+
+(* before the rewriters: the merged type admits every observed value under the TIGHT reading, for every
+   reflexive subclass test, and is well formed *)
+Theorem merge_sound :
+  forall (sub : cls -> cls -> bool), (forall c, sub c c = true) ->
+  forall k (obs : list value) (stored : list ty) T v,
+    forallb wf_valueb obs = true ->
+    (forall x, In x obs -> exists t t', get_type k x = Some t /\ In t' stored /\ corrb t t' = true) ->
+    Forall wf_ty stored ->
+    shrink_top k stored = Some T -> In v obs ->
+    member false sub v T = true /\ wf_ty T.
+Proof. exact Pipeline.merge_sound. Qed.
+Print Assumptions merge_sound.
+
+Theorem pipeline_wf :
+  forall h bt k rs (stored : list ty) T,
+    Forall wf_ty stored -> shrink_top k stored = Some T -> wf_ty (rw_chain h bt rs T).
+Proof. exact Pipeline.pipeline_wf. Qed.
+Print Assumptions pipeline_wf.
+
+(* the chain monkeytype/typing.py declares as DEFAULT_REWRITER today (Gen/Constants.v, regenerated on every run) *)
+Theorem pipeline_sound_default :
+  forall h bt k rs (obs : list value) (stored : list ty) T v,
+    wf_hier h = true -> bt_ok h bt = true -> default_chain = Some rs ->
+    forallb wf_valueb obs = true ->
+    (forall x, In x obs -> exists t t', get_type k x = Some t /\ In t' stored /\ corrb t t' = true) ->
+    Forall wf_ty stored ->
+    shrink_top k stored = Some T -> In v obs ->
+    member true (subclass h) v (rw_chain h bt rs T) = true.
+Proof. exact Pipeline.pipeline_sound_default. Qed.
+Print Assumptions pipeline_sound_default.
+
+(* no rewriter: no premise on the class tables; the result holds under both readings *)
+Theorem pipeline_sound_no_rewriter :
+  forall h bt k (obs : list value) (stored : list ty) T v,
+    forallb wf_valueb obs = true ->
+    (forall x, In x obs -> exists t t', get_type k x = Some t /\ In t' stored /\ corrb t t' = true) ->
+    Forall wf_ty stored ->
+    shrink_top k stored = Some T -> In v obs ->
+    rw_chain h bt [] T = T
+    /\ member false (subclass h) v (rw_chain h bt [] T) = true
+    /\ member true (subclass h) v (rw_chain h bt [] T) = true.
+Proof. exact Pipeline.pipeline_sound_no_rewriter. Qed.
+Print Assumptions pipeline_sound_no_rewriter.
+
+(* ---- the store hypothesis discharged from C08's round trip ----
+   ts: the per-value inferred types; stored: exactly the decodings of their encodings, in any order and
+   multiplicity.  cname / site / env / hidden and typing_ok / importable are C08's (external behaviour of
+   importlib, universally quantified).  `inferable t` (no Tuple[T, ...], no forward reference, unions in typing's
+   normal form, TypedDict keys distinct) is an explicit premise per inferred type: that get_type only produces
+   such types is evaluated per case, not proved. *)
+Theorem pipeline_sound_store :
+  forall (cname : cls -> string * string) (site : string) (env : string -> string -> lookup)
+         (hidden : string -> option cls)
+         h bt k rs (obs : list value) (ts stored : list ty) T v,
+    wf_hier h = true -> bt_ok h bt = true -> chain_ok rs = true ->
+    typing_ok env ->
+    forallb wf_valueb obs = true ->
+    mapM (get_type k) obs = Some ts ->
+    Forall (fun t => inferable t /\ Forall (importable cname env hidden) (classes t)) ts ->
+    (forall t', In t' stored <->
+                exists t, In t ts /\ exists j, type_to_json cname site t = Ok j /\ type_from_json env hidden j = Ok t') ->
+    shrink_top k stored = Some T -> In v obs ->
+    member true (subclass h) v (rw_chain h bt rs T) = true.
+Proof. exact Pipeline.pipeline_sound_store. Qed.
+Print Assumptions pipeline_sound_store.
+
+(* the same with the round trip as a function (store_rt = decode after encode) *)
+Theorem pipeline_sound_store_fn :
+  forall (cname : cls -> string * string) (site : string) (env : string -> string -> lookup)
+         (hidden : string -> option cls)
+         h bt k rs (obs : list value) (ts ds stored : list ty) T v,
+    wf_hier h = true -> bt_ok h bt = true -> chain_ok rs = true ->
+    typing_ok env ->
+    forallb wf_valueb obs = true ->
+    mapM (get_type k) obs = Some ts ->
+    Forall (fun t => inferable t /\ Forall (importable cname env hidden) (classes t)) ts ->
+    mapM (store_rt cname site env hidden) ts = Some ds ->
+    (forall t', In t' stored <-> In t' ds) ->
+    shrink_top k stored = Some T -> In v obs ->
+    member true (subclass h) v (rw_chain h bt rs T) = true.
+Proof. exact Pipeline.pipeline_sound_store_fn. Qed.
+Print Assumptions pipeline_sound_store_fn.
+
+(* ---- the rendering step ---- *)
+
+(* what evaluating a rendered annotation yields (evt: unions rebuilt by typing's Union, None last under Optional)
+   admits everything the annotation type admits — all TypedDict-free types, either reading *)
+Theorem evaluated_annotation_admits :
+  forall (anyb : bool) (sub : cls -> cls -> bool) t v,
+    ok t = true -> member anyb sub v t = true -> member anyb sub v (evt t) = true.
+Proof. exact member_evt. Qed.
+Print Assumptions evaluated_annotation_admits.
+
+(* pipeline + C11's token-level theorem: when the emitted annotation has no TypedDict (ok; with
+   max_typed_dict_size = 0 none has, Props/C06.v k0_no_typeddict), then in every namespace binding None, Ellipsis,
+   the typing names and the root-relative dotted paths of its classes, the token-level rendering evaluates to a
+   type that admits every observed value *)
+Theorem pipeline_sound_rendered_partial :
+  forall h bt k rs (obs : list value) (stored : list ty) T v ct ns,
+    wf_hier h = true -> bt_ok h bt = true -> chain_ok rs = true ->
+    forallb wf_valueb obs = true ->
+    (forall x, In x obs -> exists t t', get_type k x = Some t /\ In t' stored /\ corrb t t' = true) ->
+    Forall wf_ty stored ->
+    shrink_top k stored = Some T -> In v obs ->
+    binds_base ns -> binds_cls_l ct ns (tcls (rw_chain h bt rs T)) -> ok (rw_chain h bt rs T) = true ->
+    exists D, ev ct ns (rast ct (rw_chain h bt rs T)) = Some D /\ member true (subclass h) v D = true.
+Proof. exact PipelineRender.pipeline_sound_rendered_partial. Qed.
+Print Assumptions pipeline_sound_rendered_partial.
+
+(* text level, under C11's checked premise that the stripped text parses back to the token-level rendering *)
+Theorem pipeline_sound_rendered_text_partial :
+  forall h bt k rs (obs : list value) (stored : list ty) T v ct ns mods,
+    wf_hier h = true -> bt_ok h bt = true -> chain_ok rs = true ->
+    forallb wf_valueb obs = true ->
+    (forall x, In x obs -> exists t t', get_type k x = Some t /\ In t' stored /\ corrb t t' = true) ->
+    Forall wf_ty stored ->
+    shrink_top k stored = Some T -> In v obs ->
+    binds_base ns -> binds_cls_l ct ns (tcls (rw_chain h bt rs T)) -> ok (rw_chain h bt rs T) = true ->
+    parse_anno (strip_mods mods (ra ct (rw_chain h bt rs T))) = Some (rast ct (rw_chain h bt rs T)) ->
+    exists D, eval_text ct ns (strip_mods mods (ra ct (rw_chain h bt rs T))) = Some D
+              /\ member true (subclass h) v D = true.
+Proof. exact PipelineRender.pipeline_sound_rendered_text_partial. Qed.
+Print Assumptions pipeline_sound_rendered_text_partial.
+
+(* any annotation, TypedDicts included, relative to C11's per-annotation property: if the annotation text
+   evaluates (forward references resolved through the generated classes) to a type corresponding to the emitted
+   one — what C11's check decides per case — it evaluates to a type admitting every observed value *)
+Theorem pipeline_sound_denoted :
+  forall h bt k rs (obs : list value) (stored : list ty) T v ct ns fuel text,
+    wf_hier h = true -> bt_ok h bt = true -> chain_ok rs = true ->
+    forallb wf_valueb obs = true ->
+    (forall x, In x obs -> exists t t', get_type k x = Some t /\ In t' stored /\ corrb t t' = true) ->
+    Forall wf_ty stored ->
+    shrink_top k stored = Some T -> In v obs ->
+    (exists D, eval_anno ct ns fuel text = Some D /\ corrb (rw_chain h bt rs T) D = true) ->
+    exists D, eval_anno ct ns fuel text = Some D /\ member true (subclass h) v D = true.
+Proof. exact PipelineRender.pipeline_sound_denoted. Qed.
+Print Assumptions pipeline_sound_denoted.
+
+(* ---- the full statement, including rendering and evaluation (STATED, NOT PROVED) ----
+   A' / cs: the emitted annotation with its TypedDicts replaced by forward references to generated classes
+   (rtd, what the stub renderer does).  In a namespace that binds the base names, the classes of the annotation,
+   TypedDict, and the generated classes as the stub declares them, the annotation TEXT evaluates to a type that
+   admits every observed value.
+   Missing for a proof: (1) C11's td_stub_resolves_full (the forward reference resolves, through the generated
+   class stubs, to a type corresponding to the TypedDict) is itself only tested; (2) the stringology lemma that
+   strip_mods is token-wise (C11's `tokenwise` premise); (3) binds_cls_l for the classes below TypedDict fields.
+   With (1)-(3), C01_full follows from pipeline_sound_denoted.  As C11_full, it is false inside C11's finding
+   classes (Refuted/C11.v: e.g. a class whose name contains "NoneType"), which the premises below do not exclude. *)
+Definition C01_full : Prop :=
+  forall h bt k rs (obs : list value) (stored : list ty) T v
+         (ct : ctable) (ns : namespace) (mods : list string) (hint : string) (fuel : nat),
+    wf_hier h = true -> bt_ok h bt = true -> chain_ok rs = true ->
+    forallb wf_valueb obs = true ->
+    (forall x, In x obs -> exists t t', get_type k x = Some t /\ In t' stored /\ corrb t t' = true) ->
+    Forall wf_ty stored ->
+    shrink_top k stored = Some T -> In v obs ->
+    let A := rw_chain h bt rs T in
+    let A' := fst (rtd A hint) in
+    let cs := snd (rtd A hint) in
+    binds_base ns -> binds_cls_l ct ns (tcls A) ->
+    lookup_s "TypedDict" ns = Some NsTDBase ->
+    NoDup (map cs_name cs) ->
+    (forall s, In s cs -> lookup_s (cs_name s) ns = lookup_s (cs_name s) (cstubs_ns ct cs)) ->
+    List.length cs < fuel ->
+    exists D, eval_anno ct ns fuel (strip_mods mods (ra ct A')) = Some D
+              /\ member true (subclass h) v D = true.
+
+(* ---- non-vacuity ---- *)
+Local Open Scope string_scope.
+Local Open Scope N_scope.
+Local Open Scope list_scope.
+
+(* class table of Proofs/RewriteMono.v: 16 A; 17 B(A); 18 M; 19 C(B, M); 20 D(A).
+   Observed at one position: [], None, {"a": 1, "b": "x"}, C(), [D()], B(); max_typed_dict_size = 2.
+   The merge sees the inferred types in another order, C's twice, and the TypedDict with its fields permuted (a
+   decoded copy).  Default chain: RemoveEmptyContainers drops List[Any] (the empty list stays admitted by List[D]). *)
+Definition ex_obs : list value :=
+  [VList []; VAtom cNone 0; VDict [(VStr "a", VAtom 2 1); (VStr "b", VStr "x")]; VAtom 19 0;
+   VList [VAtom 20 7]; VAtom 17 3].
+Definition ex_stored : list ty :=
+  [TCls 19; TTypedDict [("b", TCls 3); ("a", TCls 2)] []; TList (TCls 20); TCls 1; TList TAny; TCls 19; TCls 17].
+Definition ex_merged : ty :=
+  TUnion [TCls 19; TDict (TCls 3) (TUnion [TCls 3; TCls 2]); TList (TCls 20); TCls 1; TList TAny; TCls 17].
+Definition ex_anno : ty :=
+  TUnion [TCls 19; TDict (TCls 3) (TUnion [TCls 3; TCls 2]); TList (TCls 20); TCls 1; TCls 17].
+
+Example ex_c01_nonvacuous :
+  exists rs,
+    default_chain = Some rs /\ chain_ok rs = true
+    /\ wf_hier ex_h = true /\ bt_ok ex_h ex_bt = true
+    /\ forallb wf_valueb ex_obs = true
+    /\ map (get_type 2) ex_obs
+       = [Some (TList TAny); Some (TCls 1); Some (TTypedDict [("a", TCls 2); ("b", TCls 3)] []);
+          Some (TCls 19); Some (TList (TCls 20)); Some (TCls 17)]
+    /\ (forall x, In x ex_obs -> exists t t', get_type 2 x = Some t /\ In t' ex_stored /\ corrb t t' = true)
+    /\ Forall wf_ty ex_stored
+    /\ shrink_top 2 ex_stored = Some ex_merged
+    /\ rw_chain ex_h ex_bt rs ex_merged = ex_anno
+    /\ forallb (fun v => member true (subclass ex_h) v ex_anno) ex_obs = true
+    /\ forallb (fun v => member false (subclass ex_h) v ex_merged) ex_obs = true
+    (* the merged type is not trivially wide: it rejects an int, and an unrelated class M *)
+    /\ member true (subclass ex_h) (VAtom 2 5) ex_anno = false
+    /\ member true (subclass ex_h) (VAtom 18 0) ex_anno = false.
+Proof.
+  eexists. split; [vm_compute; reflexivity|]. split; [vm_compute; reflexivity|].
+  split; [vm_compute; reflexivity|]. split; [vm_compute; reflexivity|]. split; [vm_compute; reflexivity|].
+  split; [vm_compute; reflexivity|].
+  split; [apply coveredb_spec; vm_compute; reflexivity|].
+  split.
+  { repeat constructor. cbn. intros [H|[]]. discriminate H. }
+  repeat split; vm_compute; reflexivity.
+Qed.
+
+(* the theorem applied to the example (each observed value, through pipeline_sound_default) *)
+Example ex_c01_applied : forall v, In v ex_obs -> member true (subclass ex_h) v ex_anno = true.
+Proof.
+  destruct ex_c01_nonvacuous as [rs [Hd [_ [Hh [Hb [Hw [_ [Hc [Hs [Hm [Hr _]]]]]]]]]]].
+  intros v Hv. rewrite <- Hr. eapply pipeline_sound_default; eauto.
+Qed.
+
+(* the rendering step on the same annotation: text, stripped text, what it evaluates to *)
+Definition ex_ct01 : ctable :=
+  [(1, ("builtins", "NoneType")); (2, ("builtins", "int")); (3, ("builtins", "str"));
+   (17, ("app", "B")); (19, ("app", "C")); (20, ("app.models", "D"))].
+Definition ex_ns01 : namespace :=
+  [("None", NsNone); ("Ellipsis", NsEllipsis)] ++ map (fun k => (k, NsTyp k)) typing_names
+  ++ [("int", NsCls 2); ("str", NsCls 3); ("B", NsCls 17); ("C", NsCls 19); ("D", NsCls 20)].
+
+Example ex_c01_rendered :
+  let mods := ["app"; "typing"; "app.models"] in
+  binds_base ex_ns01 /\ binds_cls_l ex_ct01 ex_ns01 (tcls ex_anno) /\ ok ex_anno = true
+  /\ ra ex_ct01 ex_anno = "Optional[Union[app.C, Dict[str, Union[str, int]], List[app.models.D], app.B]]"
+  /\ strip_mods mods (ra ex_ct01 ex_anno) = "Optional[Union[C, Dict[str, Union[str, int]], List[D], B]]"
+  /\ parse_anno (strip_mods mods (ra ex_ct01 ex_anno)) = Some (rast ex_ct01 ex_anno)
+  /\ eval_text ex_ct01 ex_ns01 (strip_mods mods (ra ex_ct01 ex_anno))
+     = Some (TUnion [TCls 19; TDict (TCls 3) (TUnion [TCls 3; TCls 2]); TList (TCls 20); TCls 17; TCls 1])
+  /\ forallb (fun v => member true (subclass ex_h) v
+                         (TUnion [TCls 19; TDict (TCls 3) (TUnion [TCls 3; TCls 2]); TList (TCls 20); TCls 17; TCls 1]))
+             ex_obs = true.
+Proof.
+  assert (Hb : binds_base ex_ns01).
+  { split; [reflexivity|]. split; [reflexivity|].
+    intros k Hk. cbn in Hk. repeat (destruct Hk as [<-|Hk]; [reflexivity|]). destruct Hk. }
+  assert (Hc : binds_cls_l ex_ct01 ex_ns01 (tcls ex_anno)).
+  { intros c Hc Hn. cbn in Hc.
+    repeat (destruct Hc as [<-|Hc]; [first [vm_compute; reflexivity | exfalso; apply Hn; reflexivity]|]).
+    destruct Hc. }
+  cbn zeta. split; [exact Hb|]. split; [exact Hc|]. vm_compute. repeat split; reflexivity.
+Qed.
+
+(* the store premise of pipeline_sound_store_fn on C08's example environment (classes 16 K, 17 K.Inner):
+   the round trip really changes the TypedDict (fields come back sorted), and the theorem's premises hold *)
+Definition ex_obs_store : list value :=
+  [VList []; VAtom cNone 0; VDict [(VStr "b", VAtom 2 1); (VStr "a", VStr "x")]; VAtom 17 0; VList [VAtom 16 7]].
+
+Example ex_c01_store :
+  let ts := [TList TAny; TCls 1; TTypedDict [("b", TCls 2); ("a", TCls 3)] []; TCls 17; TList (TCls 16)] in
+  let ds := [TList TAny; TCls 1; TTypedDict [("a", TCls 3); ("b", TCls 2)] []; TCls 17; TList (TCls 16)] in
+  let stored := [TCls 17; TList (TCls 16); TTypedDict [("a", TCls 3); ("b", TCls 2)] []; TCls 17; TList TAny; TCls 1] in
+  typing_ok ex_ev
+  /\ forallb wf_valueb ex_obs_store = true
+  /\ mapM (get_type 2) ex_obs_store = Some ts
+  /\ Forall (fun t => inferable t /\ Forall (importable ex_cn ex_ev ex_hd) (classes t)) ts
+  /\ mapM (store_rt ex_cn "monkeytype.typing" ex_ev ex_hd) ts = Some ds
+  /\ (forall t', In t' stored <-> In t' ds)
+  /\ shrink_top 2 stored
+     = Some (TUnion [TCls 17; TList (TCls 16); TDict (TCls 3) (TUnion [TCls 3; TCls 2]); TList TAny; TCls 1]).
+Proof.
+  cbn zeta. split; [exact ex_typing_ok|]. split; [vm_compute; reflexivity|]. split; [vm_compute; reflexivity|].
+  split.
+  { repeat constructor; vm_compute; reflexivity. }
+  split; [vm_compute; reflexivity|]. split; [|vm_compute; reflexivity].
+  intros t'. cbn [In]. tauto.
+Qed.
